@@ -165,6 +165,13 @@ def rule_spacing_re(ctx: RuleContext, p: Program, rid: str) -> None:
     m = p.module('models.internal.spacing_accessors')
     sym = m.symbols.get('_SPACING_GROUP_RE')
     rxn = _compiled_regex(sym.node) if isinstance(sym, Const) else None
+    if sym is None:
+        # the converter is spelled without this table: SP-ROUTE interprets _text_to_tokens on every spacing text of the domain, whatever it uses
+        for tname, cname in (('WHITESPACE', 'Whitespace'), ('_NEWLINE', 'Newline')):
+            c = p.cls(cname, 'models.spacing')
+            ctx.check(_class_const_str(p, c, 'RULE') == tname, rid, f'models.spacing:{cname}.RULE', tname,
+                      f'{cname}.RULE is not {tname}', c.where, note=tname, nontrivial=False)
+        return
     if rxn is None:
         raise AnalysisError('SPACING-RE: _SPACING_GROUP_RE is not re.compile(<literal>)')
     pat, flags = rxn
